@@ -34,6 +34,18 @@ func (valdec ptrDecoder) Decode(dec *Decoder, p interface{}, tag byte) {
 		if *ptr != nil {
 			*ptr = nil
 		}
+	case TagRef:
+		// A back-reference to an object of exactly this pointer type is resolved by aliasing
+		// it. Decoding it into a fresh element would copy the object, and an object that is
+		// still being decoded (a cycle) would be copied unfinished.
+		if o := dec.refer.Read(dec.ReadInt()); reflect.TypeOf(o) == valdec.t.Type1() {
+			*ptr = reflect2.PtrOf(o)
+		} else {
+			if *ptr == nil {
+				*ptr = valdec.et.UnsafeNew()
+			}
+			dec.convertReference(o, valdec.et.PackEFace(*ptr))
+		}
 	default:
 		if *ptr == nil {
 			*ptr = valdec.et.UnsafeNew()
